@@ -111,7 +111,10 @@ func main() {
 			if o.Status == "undecided" {
 				kind = "undecided"
 			}
-			path := writeViolation(*verif, p, i+1, o, kind)
+			path := "-"
+			if !*noEvidence {
+				path = writeViolation(*verif, p, i+1, o, kind)
+			}
 			fmt.Printf("  %s: %s\n    %s\n", strings.ToUpper(kind), o.Key(), o.Msg)
 			for _, w := range o.Witness {
 				fmt.Println("      witness:", w)
